@@ -367,7 +367,7 @@ pub fn check_h(l: &mut Local, m: &Mat, rng: &mut Rng) {
 }
 
 pub fn run(run: &mut Run) {
-    run.rule = "H with 1<=r<=40, r<=n<=80 (every 4096th case 100<=r<=200, n<=400; and 2..6 x (65 534 .. 136 000) staircase / triangular-tail matrices: index widths) from 12 families (exact staircase, staircase +/- one entry or one entry moved, tridiagonal band with exactly 2r-1 ones, upper bidiagonal, dense random at 5 densities, sparse, invertible dense tail, singular tail where only the LAST column is dependent, duplicate/zero column or zero row, square k=0); oracle = bit-packed rank of the last r columns and own syndrome; messages = 0, all units, 8 random, all-ones (one of them also as a reversed and as a stride-2 array view); linearity on 4 pairs; non-trivial = encoder built and >= 1 non-zero message encoded, distinct by matrix digest".into();
+    run.rule = "H with 1<=r<=40, r<=n<=80 (every 4096th case 100<=r<=200, n<=400; and 2..6 x (65 534 .. 136 000) staircase / triangular-tail matrices: index widths; and 520..640 x 1040..1340 matrices with a dense generator of more than 2^18 elements) from 12 families (exact staircase, staircase +/- one entry or one entry moved, tridiagonal band with exactly 2r-1 ones, upper bidiagonal, dense random at 5 densities, sparse, invertible dense tail, singular tail where only the LAST column is dependent, duplicate/zero column or zero row, square k=0); oracle = bit-packed rank of the last r columns and own syndrome; messages = 0, all units, 8 random, all-ones (one of them also as a reversed and as a stride-2 array view); linearity on 4 pairs; non-trivial = encoder built and >= 1 non-zero message encoded, distinct by matrix digest".into();
     run.assumptions = vec!["which encoder type was used is read from the Debug output of Encoder (corroboration only)".into()];
     let n = if cfg!(miri) { 40 } else { run.tier.n(1_500_000, 60_000_000) };
     run.sub("matrices", n, |l, idx, rng| {
@@ -377,12 +377,18 @@ pub fn run(run: &mut Run) {
     // index widths: more than 2^16 (and 2^17) message columns, staircase and dense tails; messages with ones on both
     // sides of the boundaries
     if !cfg!(miri) {
-        run.sub("wide-codes", run.tier.n(6, 60), |l, idx, rng| {
-            let r = rng.range(2, 6);
-            let k = match idx % 3 {
-                0 => 65_536 + rng.range(1, 5000),
-                1 => 131_072 + rng.range(1, 300),
-                _ => 65_536 - rng.range(0, 3),
+        run.sub("wide-codes", run.tier.n(8, 80), |l, idx, rng| {
+            // every fourth case: a large DENSE generator instead (more than 2^18 elements), i.e. r and k of a few hundred
+            let large_dense = idx % 4 == 3;
+            let r = if large_dense { rng.range(520, 640) } else { rng.range(2, 6) };
+            let k = if large_dense {
+                rng.range(520, 700)
+            } else {
+                match idx % 3 {
+                    0 => 65_536 + rng.range(1, 5000),
+                    1 => 131_072 + rng.range(1, 300),
+                    _ => 65_536 - rng.range(0, 3),
+                }
             };
             let mut e: Vec<(usize, usize)> = Vec::new();
             // every row checks a few hundred message bits spread over the whole width, always some beyond 2^16
@@ -396,7 +402,7 @@ pub fn run(run: &mut Run) {
                     }
                 }
             }
-            let staircase = idx % 2 == 0;
+            let staircase = idx % 2 == 0 && !large_dense;
             if staircase {
                 staircase_tail(r, k, &mut e);
             } else {
@@ -410,7 +416,7 @@ pub fn run(run: &mut Run) {
                     }
                 }
             }
-            let m = Mat::new(r, k + r, e, if staircase { "wide-staircase" } else { "wide-dense-tail" });
+            let m = Mat::new(r, k + r, e, if large_dense { "large-dense-generator" } else if staircase { "wide-staircase" } else { "wide-dense-tail" });
             let h = m.to_sparse();
             l.eval();
             let enc = match guard(|| Encoder::from_h(&h)) {
@@ -424,9 +430,11 @@ pub fn run(run: &mut Run) {
                     return;
                 }
             };
-            for t in 0..4 {
+            for t in 0..5 {
                 let mut msg = vec![0u8; k];
                 let ones: Vec<usize> = match t {
+                    // all ones: every parity row sums a few hundred ones
+                    4 => (0..k).collect(),
                     0 => vec![k - 1],
                     1 => vec![65_536.min(k - 1)],
                     2 => (0..k).filter(|_| rng.chance(0.01)).collect(),
